@@ -568,7 +568,7 @@ func runC14(r *Run) {
 	r.rule("R11", "request directives are matched whatever their letter case (RFC 9111 §5.2: directive names are case-insensitive): what hasRequestDirective searches in went through a case fold (E3)", func() {
 		f := r.Fn(cachePkg, "hasRequestDirective")
 		n := 0
-		for _, c := range callsIn(f, false) {
+		for _, c := range callsIn(f, true) {
 			switch c.Name {
 			case "strings.Contains", "strings.Index", "strings.HasPrefix", "strings.HasSuffix", "bytes.Contains", "bytes.Index":
 			default:
@@ -586,10 +586,13 @@ func runC14(r *Run) {
 			r.check(folded, fmt.Sprintf("hasRequestDirective:search#%d:case-folded", n), r.pos(c.Instr), "the Cache-Control value is lower-cased before the directive is searched",
 				"the directive is searched in the header as sent: `Cache-Control: No-Store` (or NO-CACHE) is not recognised, the response is stored and served from the cache")
 		}
-		folds := len(callsMatching(f, false, nameIs("strings.EqualFold")))
+		folds := len(callsMatching(f, true, nameIs("strings.EqualFold")))
 		// … or compared member by member (`for _, m := range strings.Split(v, ",") { if name == directive …`): then the
 		// member is also freed of the blanks around it — the list is `a, b`, and the blank belongs to no name
 		isDirective := func(v ssa.Value) bool {
+			if fv, ok := v.(*ssa.FreeVar); ok { // read inside a predicate literal (`slices.ContainsFunc(lines, func(…) bool {…})`)
+				v = bindingOf(fv)
+			}
 			p, ok := v.(*ssa.Parameter)
 			return ok && p.Parent() == f && p.Name() == "directive"
 		}
@@ -605,10 +608,14 @@ func runC14(r *Run) {
 			return false
 		}
 		eqs := 0
-		for _, in := range instrsWhere(f, func(in ssa.Instruction) bool {
-			bo, ok := in.(*ssa.BinOp)
-			return ok && (bo.Op == token.EQL || bo.Op == token.NEQ) && (dependsOn(bo.X, isDirective) != nil) != (dependsOn(bo.Y, isDirective) != nil) && isByteSeq(bo.X.Type())
-		}) {
+		var cmps []ssa.Instruction
+		for _, g := range append([]*ssa.Function{f}, anonFuncsDeep(f)...) {
+			cmps = append(cmps, instrsWhere(g, func(in ssa.Instruction) bool {
+				bo, ok := in.(*ssa.BinOp)
+				return ok && (bo.Op == token.EQL || bo.Op == token.NEQ) && (dependsOn(bo.X, isDirective) != nil) != (dependsOn(bo.Y, isDirective) != nil) && isByteSeq(bo.X.Type())
+			})...)
+		}
+		for _, in := range cmps {
 			bo := in.(*ssa.BinOp)
 			member := bo.X
 			if dependsOn(bo.X, isDirective) != nil {
@@ -644,7 +651,7 @@ func runC14(r *Run) {
 		// … on every Cache-Control field line of the request (several lines are one list): the text comes from an
 		// accessor that hands out all values, not from Get/Peek, which answer the first line only
 		single, all := 0, 0
-		for _, c := range callsIn(f, false) {
+		for _, c := range callsIn(f, true) {
 			switch {
 			case strings.HasSuffix(c.Name, ".Ctx).Get"), strings.HasSuffix(c.Name, "RequestHeader).Peek"):
 				single++
